@@ -216,7 +216,9 @@ class Hexital:
         self._indicators.pop(name, None)
 
     def append(self, candles: Candle | List[Candle] | dict | List[dict] | list | List[list]):
-        for candle_manager in self._candles.values():
+        # The base manager adopts the given Candle objects and converts/collapses them in place,
+        # so it goes last: every other timeframe first takes its copies of the untouched candles
+        for candle_manager in reversed(list(self._candles.values())):
             candle_manager.append(candles)
 
         self.calculate()
